@@ -1714,3 +1714,511 @@ Ltac wf_gene_tac :=
   unfold ex_N, ex_rloc; split; [discriminate|]; split; [repeat (apply Forall_cons; [cbn; lia|]); apply Forall_nil|]; split; [reflexivity|];
   intros Hb; first [ vm_compute in Hb; discriminate Hb
                    | split; eauto 8 using in_eq, in_cons ].
+
+(* ====================================================================================================== *)
+(* third pass: Region.get_unique_protoclusters as a whole (set by identity, then the sort), and
+   "every protocluster, candidate cluster and sub-region is drawn exactly once, or as exactly two halves
+   that are linked pairwise", by identity *)
+
+(* ---------- the set of protoclusters: de-duplication by identity ---------- *)
+Lemma dedupe_fid_incl l : forall x, In x (dedupe_fid l) -> In x l.
+Proof.
+  induction l as [|f rest IH]; intros x H; cbn [dedupe_fid] in H; [contradiction|].
+  destruct H as [H|H]; [left; exact H|]. apply filter_In in H. right. apply IH. apply H.
+Qed.
+
+Lemma dedupe_fid_covers l : forall x, In x l -> In (fid x) (map fid (dedupe_fid l)).
+Proof.
+  induction l as [|f rest IH]; intros x H; [contradiction|]. cbn [dedupe_fid map].
+  destruct (Z.eq_dec (fid x) (fid f)) as [E|E]; [left; symmetry; exact E|].
+  destruct H as [H|H]; [subst; exfalso; apply E; reflexivity|].
+  right. specialize (IH x H). apply in_map_iff in IH. destruct IH as (y & Ey & Hy).
+  apply in_map_iff. exists y. split; [exact Ey|]. apply filter_In. split; [exact Hy|].
+  rewrite Ey. apply negb_true_iff. apply Z.eqb_neq. exact E.
+Qed.
+
+Lemma NoDup_map_filter {A B} (g : A -> B) p l : NoDup (map g l) -> NoDup (map g (filter p l)).
+Proof.
+  induction l as [|a l IH]; cbn [map filter]; intros H; [constructor|].
+  inversion H as [|x xs Hn Hd]; subst. destruct (p a); cbn [map]; [|apply IH; exact Hd].
+  constructor; [|apply IH; exact Hd].
+  intros Hin. apply Hn. apply in_map_iff in Hin. destruct Hin as (y & Ey & Hy).
+  apply in_map_iff. exists y. split; [exact Ey|]. apply filter_In in Hy. apply Hy.
+Qed.
+
+Lemma dedupe_fid_nodup l : NoDup (map fid (dedupe_fid l)).
+Proof.
+  induction l as [|f rest IH]; cbn [dedupe_fid map]; constructor.
+  - intros Hin. apply in_map_iff in Hin. destruct Hin as (y & Ey & Hy). apply filter_In in Hy.
+    destruct Hy as [_ Hy]. rewrite Ey, Z.eqb_refl in Hy. discriminate.
+  - apply NoDup_map_filter. exact IH.
+Qed.
+
+(* an object that occurs once stays where it is: nothing is lost, nothing is invented *)
+Lemma filter_all {A} (p : A -> bool) l : (forall x, In x l -> p x = true) -> filter p l = l.
+Proof.
+  induction l as [|a l IH]; intros H; [reflexivity|]. cbn [filter].
+  rewrite (H a (or_introl eq_refl)). f_equal. apply IH. intros x Hx. apply H. right. exact Hx.
+Qed.
+
+Lemma dedupe_fid_id l : NoDup (map fid l) -> dedupe_fid l = l.
+Proof.
+  induction l as [|f rest IH]; intros H; [reflexivity|]. cbn [dedupe_fid]. cbn [map] in H.
+  inversion H as [|x xs Hn Hd]; subst. rewrite (IH Hd). f_equal.
+  apply filter_all. intros y Hy. apply negb_true_iff. apply Z.eqb_neq.
+  intros E. apply Hn. rewrite <- E. apply in_map. exact Hy.
+Qed.
+
+Lemma proto_set_perm order members : Permutation (proto_set order members) (dedupe_fid members).
+Proof. unfold proto_set. apply sort_by_perm. Qed.
+
+Lemma get_unique_perm rloc order members :
+  Permutation (get_unique_protoclusters rloc order members) (dedupe_fid members).
+Proof.
+  unfold get_unique_protoclusters. eapply Permutation_trans; [apply unique_perm|apply proto_set_perm].
+Qed.
+
+Lemma get_unique_by_identity rloc order members :
+  let u := get_unique_protoclusters rloc order members in
+  NoDup (map fid u) /\ (forall x, In x u -> In x members) /\ (forall x, In x members -> In (fid x) (map fid u)).
+Proof.
+  cbv zeta. pose proof (get_unique_perm rloc order members) as P. split; [|split].
+  - eapply Permutation_NoDup; [apply Permutation_map; apply Permutation_sym; exact P|apply dedupe_fid_nodup].
+  - intros x Hx. apply dedupe_fid_incl. eapply Permutation_in; [exact P|exact Hx].
+  - intros x Hx. eapply Permutation_in; [apply Permutation_map; apply Permutation_sym; exact P|].
+    apply dedupe_fid_covers. exact Hx.
+Qed.
+
+(* ---------- the identity of the feature is carried into the area(s) drawn for it ---------- *)
+Definition tagged (f : feat) (a : area) : Prop := a_kind a = fkind f /\ area_tag a = feat_tag f.
+
+(* b keeps what identifies a: kind, tool, and - for a candidate cluster - the product string *)
+Definition tag_pres (a b : area) : Prop :=
+  a_kind b = a_kind a /\ a_tool b = a_tool a /\ (a_kind a = K_Cand -> a_prod b = a_prod a).
+
+Lemma tag_pres_tagged f a b : tag_pres a b -> tagged f a -> tagged f b.
+Proof.
+  intros (Hk & Ht & Hp) (Ka & Ta). unfold tagged, area_tag in *. split; [congruence|].
+  rewrite Hk. destruct (a_kind a =? K_Cand) eqn:E.
+  - rewrite Hp; [exact Ta|]. apply Z.eqb_eq. exact E.
+  - rewrite Ht. exact Ta.
+Qed.
+
+Lemma from_feature_tagged f h : tagged f (from_feature f h).
+Proof.
+  unfold tagged, area_tag, feat_tag, ftool.
+  assert (H : forall s e ns ne, let a := mkArea (fkind f) s e ns ne h 0 (fprod f) (if fkind f =? K_Cand then 0 else fid f) in
+              a_kind a = fkind f /\ (if a_kind a =? K_Cand then a_prod a else a_tool a) = (if fkind f =? K_Cand then fprod f else fid f)).
+  { intros. cbn. split; [reflexivity|]. destruct (fkind f =? K_Cand); reflexivity. }
+  unfold from_feature, ftool. destruct (fcore f); [destruct (fkind f =? K_Proto)|]; apply H.
+Qed.
+
+Lemma tagged_offset f a d : tagged f a -> tagged f (area_offset a d).
+Proof. intros H. exact H. Qed.
+
+Lemma adjust_pres a f rc L g a' oe :
+  a_kind a = fkind f ->
+  adjust_cross_origin_area a f rc L g = Ok (a', oe) ->
+  tag_pres a a' /\ (forall e, oe = Some e -> tag_pres a e).
+Proof.
+  intros Hk H. unfold adjust_cross_origin_area in H.
+  destruct (negb (fcrosses f && area_crosses a)); [discriminate|].
+  assert (Hwg : tag_pres a (with_group a g)).
+  { unfold with_group, tag_pres. destruct (a_group a =? 0); cbn; auto. }
+  destruct Hwg as (W1 & W2 & W3).
+  destruct (proto_core f) as [core|] eqn:EP.
+  - assert (Hp : a_kind a <> K_Cand).
+    { unfold proto_core in EP. destruct (fkind f =? K_Proto) eqn:K; [|discriminate].
+      apply Z.eqb_eq in K. unfold K_Proto, K_Cand in *. lia. }
+    destruct (loc_fend core <? loc_fstart core); [|destruct (fstart f <=? loc_fstart core)];
+      destruct rc; inversion H; subst; (split; [|intros e He; inversion He; subst]);
+      unfold tag_pres; cbn; repeat split; auto; intros; contradiction.
+  - destruct rc; inversion H; subst; (split; [|intros e He; inversion He; subst]);
+      unfold tag_pres; cbn; repeat split; auto; intros; discriminate.
+Qed.
+
+(* drawn_id: the relation `drawn` with the identity of the feature on every area *)
+Inductive drawn_id (N : Z) : Z -> list feat -> list area -> Z -> Prop :=
+| drawn_id_nil g : drawn_id N g [] [] g
+| drawn_id_one g f a fs out g' :
+    a_group a = 0 -> tagged f a ->
+    drawn_id N g fs out g' -> drawn_id N g (f :: fs) (a :: out) g'
+| drawn_id_two g f a e fs out g' :
+    a_group a = g + 1 -> a_group e = g + 1 -> tagged f a -> tagged f e ->
+    a_height e = a_height a -> a_ne a = N -> a_ns e = 0 ->
+    drawn_id N (g + 1) fs out g' -> drawn_id N g (f :: fs) (a :: e :: out) g'.
+
+Lemma drawn_id_drawn N g fs out g' : drawn_id N g fs out g' -> drawn N g fs out g'.
+Proof.
+  induction 1.
+  - constructor.
+  - apply drawn_one; [assumption|apply H0|assumption].
+  - apply drawn_two; try assumption; [apply H1|apply H2].
+Qed.
+
+Lemma drawn_id_app N g fs out g1 : drawn_id N g fs out g1 ->
+  forall fs' out' g2, drawn_id N g1 fs' out' g2 -> drawn_id N g (fs ++ fs') (out ++ out') g2.
+Proof.
+  induction 1; intros fs' out' g2 H'; cbn [app].
+  - exact H'.
+  - apply drawn_id_one; auto.
+  - apply drawn_id_two; auto.
+Qed.
+
+Lemma area_drawn_id rloc N ext h conv grp f st' :
+  add_area_from_feature rloc N ext h (conv, grp) f = Ok st' ->
+  exists added grp', st' = (conv ++ added, grp') /\ drawn_id N grp [f] added grp'.
+Proof.
+  intros H.
+  pose proof (from_feature_facts f h) as F. cbv zeta in F.
+  destruct F as (Fk & Fns & Fne & Fg & Fh & _).
+  pose proof (from_feature_tagged f h) as Ft.
+  unfold add_area_from_feature in H.
+  destruct (ext && fcrosses f).
+  - destruct (negb (area_crosses (from_feature f h))); [discriminate|].
+    destruct (adjust_cross_origin_area (from_feature f h) f (bridges rloc) N (grp + 1)) as [[a' oe]|k] eqn:Eadj;
+      cbn [bind] in H; [|discriminate].
+    destruct (adjust_extents _ _ _ _ _ _ _ Fg Eadj) as (Hns & Hk & Hh & Htrue & Hfalse).
+    destruct (adjust_pres _ _ _ _ _ _ _ Fk Eadj) as (Pa & Pe).
+    destruct (bridges rloc).
+    + destruct (Htrue eq_refl) as (Hoe & Hgr & _). subst oe. inversion H; subst st'.
+      exists [a'], grp. split; [reflexivity|].
+      apply drawn_id_one; [assumption|exact (tag_pres_tagged _ _ _ Pa Ft)|constructor].
+    + destruct (Hfalse eq_refl) as (e & Hoe & Hne & Hens & _ & Hek & Heh & Hga & Hge). subst oe.
+      inversion H; subst st'.
+      exists [a'; e], (grp + 1). split; [reflexivity|].
+      apply drawn_id_two; try congruence;
+        [exact (tag_pres_tagged _ _ _ Pa Ft)|exact (tag_pres_tagged _ _ _ (Pe e eq_refl) Ft)|constructor].
+  - assert (Hd : forall a, a_group a = 0 -> tagged f a ->
+                  exists added grp', (conv ++ [a], grp) = (conv ++ added, grp') /\ drawn_id N grp [f] added grp').
+    { intros a H1 H2. exists [a], grp. split; [reflexivity|].
+      apply drawn_id_one; [assumption|assumption|constructor]. }
+    destruct (ext && contains [last_part rloc] (floc f)).
+    + destruct (bridges rloc); inversion H; subst st'; apply Hd; try assumption;
+        apply tagged_offset; assumption.
+    + inversion H; subst st'; apply Hd; assumption.
+Qed.
+
+Lemma row_features_drawn_id rloc N ext h fs : forall st st',
+  add_row_features rloc N ext h st fs = Ok st' ->
+  exists added, fst st' = fst st ++ added /\ drawn_id N (snd st) fs added (snd st').
+Proof.
+  induction fs as [|f more IH]; intros st st' H; cbn [add_row_features] in H.
+  - inversion H; subst. exists []. rewrite app_nil_r. split; [reflexivity|constructor].
+  - destruct (add_area_from_feature rloc N ext h st f) as [st1|k] eqn:E; cbn [bind] in H; [|discriminate].
+    destruct st as [conv grp].
+    destruct (area_drawn_id _ _ _ _ _ _ _ _ E) as (a1 & g1 & Hst1 & Hd1). subst st1.
+    destruct (IH _ _ H) as (a2 & Hfst & Hd2). cbn [fst snd] in *.
+    exists (a1 ++ a2). split; [rewrite Hfst, app_assoc; reflexivity|].
+    exact (drawn_id_app _ _ _ _ _ Hd1 _ _ _ Hd2).
+Qed.
+
+Lemma rows_drawn_id rloc N ext rows : forall h st st' h',
+  add_rows rloc N ext h st rows = Ok (st', h') ->
+  exists added, fst st' = fst st ++ added /\ drawn_id N (snd st) (contents_of rows) added (snd st').
+Proof.
+  induction rows as [|rw more IH]; intros h st st' h' H; cbn [add_rows] in H.
+  - inversion H; subst. exists []. rewrite app_nil_r. split; [reflexivity|constructor].
+  - destruct (add_row_features rloc N ext h st (r_contents rw)) as [st1|k] eqn:E; cbn [bind] in H; [|discriminate].
+    destruct (row_features_drawn_id _ _ _ _ _ _ _ E) as (a1 & Hf1 & Hd1).
+    destruct (IH _ _ _ _ H) as (a2 & Hf2 & Hd2).
+    exists (a1 ++ a2). split; [rewrite Hf2, Hf1, app_assoc; reflexivity|].
+    unfold contents_of. cbn [flat_map]. exact (drawn_id_app _ _ _ _ _ Hd1 _ _ _ Hd2).
+Qed.
+
+Lemma build_complete_id rloc N circ subs cands protos out :
+  build_area_rows rloc N circ subs cands protos = Ok out ->
+  exists fs g', Permutation fs (drawn_candidates subs cands ++ subs ++ protos) /\ drawn_id N 0 fs out g'.
+Proof.
+  intros H. unfold build_area_rows in H.
+  destruct (pack subs (-1)) as [sub_rows|k] eqn:E1; cbn [bind] in H; [|discriminate].
+  destruct (pack (filter (fun c => nonempty subs || negb (fsingle c)) cands) (-1)) as [cand_rows|k] eqn:E2;
+    cbn [bind] in H; [|discriminate].
+  destruct (pack (unique_protoclusters rloc protos) (-1)) as [proto_rows|k] eqn:E3; cbn [bind] in H; [|discriminate].
+  destruct (add_rows rloc N (extend_over_origin rloc N circ) 0 ([], 0) (cand_rows ++ sub_rows)) as [[st height]|k] eqn:E4;
+    cbn [bind] in H; [|discriminate].
+  match type of H with (do r2 <- add_rows _ _ _ ?hh _ _; _) = _ =>
+    destruct (add_rows rloc N (extend_over_origin rloc N circ) hh st proto_rows) as [[st2 h2]|k] eqn:E5 end;
+    cbn [bind] in H; [|discriminate].
+  inversion H; subst out. cbn [fst].
+  destruct (rows_drawn_id _ _ _ _ _ _ _ _ E4) as (a1 & Hf1 & Hd1).
+  destruct (rows_drawn_id _ _ _ _ _ _ _ _ E5) as (a2 & Hf2 & Hd2).
+  cbn [fst snd app] in *.
+  exists (contents_of (cand_rows ++ sub_rows) ++ contents_of proto_rows), (snd st2). split.
+  - rewrite contents_of_app. rewrite <- app_assoc.
+    apply Permutation_app; [exact (pack_complete _ _ _ E2)|].
+    apply Permutation_app; [exact (pack_complete _ _ _ E1)|].
+    eapply Permutation_trans; [exact (pack_complete _ _ _ E3)|apply unique_perm].
+  - rewrite Hf2, Hf1. exact (drawn_id_app _ _ _ _ _ Hd1 _ _ _ Hd2).
+Qed.
+
+(* build_area_rows on the Region: what is drawn is, object by object, the drawn candidate clusters, the
+   sub-regions and the protoclusters of the candidate clusters, each object ONCE *)
+Lemma region_complete rloc N circ subs cands order members out :
+  build_area_rows_region rloc N circ subs cands order members = Ok out ->
+  exists fs g', Permutation fs (expected_features subs cands members) /\ drawn_id N 0 fs out g'.
+Proof.
+  intros H. unfold build_area_rows_region in H.
+  destruct (build_complete_id _ _ _ _ _ _ _ H) as (fs & g' & P & D).
+  exists fs, g'. split; [|exact D].
+  eapply Permutation_trans; [exact P|]. unfold expected_features, drawn_candidates.
+  apply Permutation_app_head. apply Permutation_app_head. apply proto_set_perm.
+Qed.
+
+(* ---------- the decidable test by identity accepts every output of this shape ---------- *)
+Definition fkey (f : feat) : Z * Z := (fkind f, feat_tag f).
+
+Lemma same_key_true f a : tagged f a -> same_key f a = true.
+Proof. intros (Hk & Ht). unfold same_key. rewrite Hk, Ht, !Z.eqb_refl. reflexivity. Qed.
+
+Lemma same_key_other f f' a : tagged f a -> fkey f' <> fkey f -> same_key f' a = false.
+Proof.
+  intros (Hk & Ht) Hne. unfold same_key. rewrite Hk, Ht.
+  destruct (fkind f =? fkind f') eqn:E1; [|reflexivity].
+  destruct (feat_tag f =? feat_tag f') eqn:E2; [|reflexivity].
+  exfalso. apply Hne. unfold fkey. apply Z.eqb_eq in E1. apply Z.eqb_eq in E2. congruence.
+Qed.
+
+Lemma not_in_key f f0 fs : ~ In (fkey f) (map fkey (f0 :: fs)) -> fkey f <> fkey f0 /\ ~ In (fkey f) (map fkey fs).
+Proof. cbn [map In]. intros H. split; [intros E; apply H; left; symmetry; exact E|intros E; apply H; right; exact E]. Qed.
+
+Lemma occ_absent N g fs out g' f :
+  drawn_id N g fs out g' -> ~ In (fkey f) (map fkey fs) -> occurrences f out = [].
+Proof.
+  induction 1; intros Hn.
+  - reflexivity.
+  - destruct (not_in_key _ _ _ Hn) as (Hne & Hn'). unfold occurrences in *. cbn [filter].
+    rewrite (same_key_other _ _ _ H0 Hne). apply IHdrawn_id. exact Hn'.
+  - destruct (not_in_key _ _ _ Hn) as (Hne & Hn'). unfold occurrences in *. cbn [filter].
+    rewrite (same_key_other _ _ _ H1 Hne), (same_key_other _ _ _ H2 Hne). apply IHdrawn_id. exact Hn'.
+Qed.
+
+Lemma drawn_id_mono N g fs out g' : drawn_id N g fs out g' -> g <= g'.
+Proof. intros H. exact (drawn_mono _ _ _ _ _ (drawn_id_drawn _ _ _ _ _ H)). Qed.
+
+Lemma groups_range N g fs out g' :
+  drawn_id N g fs out g' -> forall a, In a out -> a_group a = 0 \/ (g < a_group a /\ a_group a <= g').
+Proof.
+  induction 1; intros x Hx.
+  - contradiction.
+  - destruct Hx as [<-|Hx]; [left; assumption|apply IHdrawn_id; exact Hx].
+  - pose proof (drawn_id_mono _ _ _ _ _ H6) as Hm.
+    destruct Hx as [<-|[<-|Hx]]; [right; lia|right; lia|].
+    destruct (IHdrawn_id x Hx) as [Hz|Hr]; [left; exact Hz|right; lia].
+Qed.
+
+Lemma group_size_cons g a out :
+  group_size g (a :: out) = (if a_group a =? g then 1 else 0) + group_size g out.
+Proof.
+  unfold group_size. cbn [filter]. destruct (a_group a =? g); [|lia].
+  unfold zlen. cbn [length]. lia.
+Qed.
+
+Lemma group_size_none x out : (forall a, In a out -> a_group a <> x) -> group_size x out = 0.
+Proof.
+  induction out as [|a out IH]; intros H; [reflexivity|]. rewrite group_size_cons.
+  assert (E : (a_group a =? x) = false) by (apply Z.eqb_neq; apply H; left; reflexivity).
+  rewrite E. rewrite IH; [reflexivity|]. intros b Hb. apply H. right. exact Hb.
+Qed.
+
+Lemma groups_linked_pairwise N g fs out g' :
+  drawn_id N g fs out g' -> 0 <= g ->
+  forall a, In a out -> a_group a <> 0 -> group_size (a_group a) out = 2.
+Proof.
+  induction 1; intros Hg x Hx Hnz.
+  - contradiction.
+  - destruct Hx as [<-|Hx]; [contradiction|].
+    rewrite group_size_cons. assert (E : (a_group a =? a_group x) = false) by lia. rewrite E.
+    rewrite (IHdrawn_id Hg x Hx Hnz). reflexivity.
+  - assert (Hfresh : group_size (g + 1) out = 0).
+    { apply group_size_none. intros b Hb. destruct (groups_range _ _ _ _ _ H6 b Hb); lia. }
+    rewrite !group_size_cons.
+    destruct Hx as [<-|[<-|Hx]].
+    + rewrite H, H0, Z.eqb_refl, Hfresh. reflexivity.
+    + rewrite H, H0, Z.eqb_refl, Hfresh. reflexivity.
+    + assert (Hgt : g + 1 < a_group x) by (destruct (groups_range _ _ _ _ _ H6 x Hx); lia).
+      assert (E1 : (a_group a =? a_group x) = false) by lia.
+      assert (E2 : (a_group e =? a_group x) = false) by lia.
+      rewrite E1, E2. rewrite (IHdrawn_id ltac:(lia) x Hx Hnz). reflexivity.
+Qed.
+
+Lemma drawn_groups_pairwise N g fs out g' :
+  drawn_id N g fs out g' -> 0 <= g -> groups_pairwise out = true.
+Proof.
+  intros H Hg. unfold groups_pairwise. apply forallb_forall. intros a Ha.
+  destruct (a_group a =? 0) eqn:E; [reflexivity|]. cbn [orb].
+  rewrite (groups_linked_pairwise _ _ _ _ _ H Hg a Ha); [reflexivity|]. apply Z.eqb_neq. exact E.
+Qed.
+
+Lemma drawn_once_same N out out' f :
+  occurrences f out' = occurrences f out -> drawn_once_ok N out' f = drawn_once_ok N out f.
+Proof. intros E. unfold drawn_once_ok. rewrite E. reflexivity. Qed.
+
+Lemma key_in_map f fs : In f fs -> In (fkey f) (map fkey fs).
+Proof. apply in_map. Qed.
+
+Lemma drawn_each_once N g fs out g' :
+  drawn_id N g fs out g' -> 0 <= g -> NoDup (map fkey fs) ->
+  forall f, In f fs -> drawn_once_ok N out f = true.
+Proof.
+  induction 1; intros Hg Hnd x Hx.
+  - contradiction.
+  - cbn [map] in Hnd. inversion Hnd as [|k ks Hnotin Hnd']; subst k ks.
+    destruct Hx as [<-|Hx].
+    + unfold drawn_once_ok, occurrences. cbn [filter]. rewrite (same_key_true _ _ H0).
+      pose proof (occ_absent _ _ _ _ _ f H1 Hnotin) as Ho. unfold occurrences in Ho. rewrite Ho. lia.
+    + assert (Hne : fkey x <> fkey f).
+      { intros E. apply Hnotin. rewrite <- E. apply key_in_map. exact Hx. }
+      rewrite (drawn_once_same N out (a :: out) x).
+      * apply IHdrawn_id; assumption.
+      * unfold occurrences. cbn [filter]. rewrite (same_key_other _ _ _ H0 Hne). reflexivity.
+  - cbn [map] in Hnd. inversion Hnd as [|k ks Hnotin Hnd']; subst k ks.
+    destruct Hx as [<-|Hx].
+    + unfold drawn_once_ok, occurrences. cbn [filter]. rewrite (same_key_true _ _ H1), (same_key_true _ _ H2).
+      pose proof (occ_absent _ _ _ _ _ f H6 Hnotin) as Ho. unfold occurrences in Ho. rewrite Ho. lia.
+    + assert (Hne : fkey x <> fkey f).
+      { intros E. apply Hnotin. rewrite <- E. apply key_in_map. exact Hx. }
+      rewrite (drawn_once_same N out (a :: e :: out) x).
+      * apply IHdrawn_id; [lia|assumption|assumption].
+      * unfold occurrences. cbn [filter].
+        rewrite (same_key_other _ _ _ H1 Hne), (same_key_other _ _ _ H2 Hne). reflexivity.
+Qed.
+
+Lemma drawn_nothing_else N g fs out g' :
+  drawn_id N g fs out g' -> forall a, In a out -> exists f, In f fs /\ tagged f a.
+Proof.
+  induction 1; intros x Hx.
+  - contradiction.
+  - destruct Hx as [<-|Hx]; [exists f; split; [left; reflexivity|assumption]|].
+    destruct (IHdrawn_id x Hx) as (f' & Hf & Ht). exists f'. split; [right; exact Hf|exact Ht].
+  - destruct Hx as [<-|[<-|Hx]]; [exists f; split; [left; reflexivity|assumption]|
+                                   exists f; split; [left; reflexivity|assumption]|].
+    destruct (IHdrawn_id x Hx) as (f' & Hf & Ht). exists f'. split; [right; exact Hf|exact Ht].
+Qed.
+
+Lemma drawn_identity_ok N g fs out g' expected :
+  drawn_id N g fs out g' -> 0 <= g -> Permutation fs expected -> NoDup (map fkey expected) ->
+  identity_ok N expected out = true.
+Proof.
+  intros H Hg P Hnd. unfold identity_ok. apply andb_true_iff. split.
+  - apply forallb_forall. intros f Hf.
+    apply (drawn_each_once _ _ _ _ _ H Hg).
+    + eapply Permutation_NoDup; [apply Permutation_map; apply Permutation_sym; exact P|exact Hnd].
+    + eapply Permutation_in; [apply Permutation_sym; exact P|exact Hf].
+  - apply forallb_forall. intros a Ha.
+    destruct (drawn_nothing_else _ _ _ _ _ H a Ha) as (f & Hf & Ht).
+    apply existsb_exists. exists f. split; [eapply Permutation_in; [exact P|exact Hf]|].
+    apply same_key_true. exact Ht.
+Qed.
+
+(* ---------- identities of the objects of a region are distinct ---------- *)
+Definition ids_wf (subs cands members : list feat) : Prop :=
+  Forall (fun f => fkind f = K_Sub) subs /\ Forall (fun f => fkind f = K_Cand) cands /\
+  Forall (fun f => fkind f = K_Proto) members /\ NoDup (map fid subs) /\ NoDup (map fprod cands).
+
+Lemma NoDup_map_weaken {A B C} (g : A -> B) (h : A -> C) l :
+  (forall x y, In x l -> In y l -> h x = h y -> g x = g y) -> NoDup (map g l) -> NoDup (map h l).
+Proof.
+  induction l as [|a l IH]; cbn [map]; intros Hinj H; [constructor|].
+  inversion H as [|x xs Hn Hd]; subst. constructor.
+  - intros Hin. apply Hn. apply in_map_iff in Hin. destruct Hin as (y & Ey & Hy).
+    apply in_map_iff. exists y. split; [|exact Hy]. apply Hinj; [right; exact Hy|left; reflexivity|exact Ey].
+  - apply IH; [|exact Hd]. intros x y Hx Hy. apply Hinj; right; assumption.
+Qed.
+
+Lemma NoDup_app_disjoint {A} (l1 l2 : list A) :
+  NoDup l1 -> NoDup l2 -> (forall x, In x l1 -> ~ In x l2) -> NoDup (l1 ++ l2).
+Proof.
+  induction l1 as [|a l1 IH]; cbn [app]; intros H1 H2 Hd; [exact H2|].
+  inversion H1 as [|x xs Hn Hd1]; subst. constructor.
+  - intros Hin. apply in_app_or in Hin. destruct Hin as [Hin|Hin]; [exact (Hn Hin)|].
+    exact (Hd a (or_introl eq_refl) Hin).
+  - apply IH; [exact Hd1|exact H2|]. intros x Hx. apply Hd. right. exact Hx.
+Qed.
+
+Lemma key_kind k l x : Forall (fun f => fkind f = k) l -> In x (map fkey l) -> fst x = k.
+Proof.
+  intros HF Hin. apply in_map_iff in Hin. destruct Hin as (f & <- & Hf).
+  rewrite Forall_forall in HF. exact (HF f Hf).
+Qed.
+
+Lemma Forall_sub {A} (P : A -> Prop) l l' : (forall x, In x l' -> In x l) -> Forall P l -> Forall P l'.
+Proof. intros Hin H. rewrite Forall_forall in *. intros x Hx. apply H. apply Hin. exact Hx. Qed.
+
+Lemma expected_nodup subs cands members :
+  ids_wf subs cands members -> NoDup (map fkey (expected_features subs cands members)).
+Proof.
+  intros (Hs & Hc & Hm & Ns & Nc). unfold expected_features.
+  set (inc := filter (fun c => nonempty subs || negb (fsingle c)) cands).
+  assert (Hc' : Forall (fun f => fkind f = K_Cand) inc).
+  { apply (Forall_sub _ cands); [|exact Hc]. intros x Hx. apply filter_In in Hx. apply Hx. }
+  assert (Hm' : Forall (fun f => fkind f = K_Proto) (dedupe_fid members)).
+  { apply (Forall_sub _ members); [|exact Hm]. apply dedupe_fid_incl. }
+  assert (Kc : NoDup (map fkey inc)).
+  { apply (NoDup_map_weaken fprod); [|apply NoDup_map_filter; exact Nc].
+    intros x y Hx Hy E. rewrite Forall_forall in Hc'. unfold fkey, feat_tag in E.
+    rewrite (Hc' x Hx), (Hc' y Hy) in E. cbn in E. congruence. }
+  assert (Ks : NoDup (map fkey subs)).
+  { apply (NoDup_map_weaken fid); [|exact Ns].
+    intros x y Hx Hy E. rewrite Forall_forall in Hs. unfold fkey, feat_tag in E.
+    rewrite (Hs x Hx), (Hs y Hy) in E. cbn in E. congruence. }
+  assert (Kp : NoDup (map fkey (dedupe_fid members))).
+  { apply (NoDup_map_weaken fid); [|apply dedupe_fid_nodup].
+    intros x y Hx Hy E. rewrite Forall_forall in Hm'. unfold fkey, feat_tag in E.
+    rewrite (Hm' x Hx), (Hm' y Hy) in E. cbn in E. congruence. }
+  rewrite !map_app. apply NoDup_app_disjoint; [exact Kc| |].
+  - apply NoDup_app_disjoint; [exact Ks|exact Kp|].
+    intros x H1 H2. pose proof (key_kind _ _ _ Hs H1). pose proof (key_kind _ _ _ Hm' H2).
+    unfold K_Sub, K_Proto in *. lia.
+  - intros x H1 H2. pose proof (key_kind _ _ _ Hc' H1) as E1. apply in_app_or in H2. destruct H2 as [H2|H2].
+    + pose proof (key_kind _ _ _ Hs H2). unfold K_Sub, K_Cand in *. lia.
+    + pose proof (key_kind _ _ _ Hm' H2). unfold K_Proto, K_Cand in *. lia.
+Qed.
+
+(* the verdict the harness computes on the implementation's output is `true` on the model's output *)
+Lemma region_identity_decidable rloc N circ subs cands order members out :
+  ids_wf subs cands members ->
+  build_area_rows_region rloc N circ subs cands order members = Ok out ->
+  identity_ok N (expected_features subs cands members) out = true /\ groups_pairwise out = true.
+Proof.
+  intros Hwf H. destruct (region_complete _ _ _ _ _ _ _ _ H) as (fs & g' & P & D). split.
+  - apply (drawn_identity_ok _ _ _ _ _ _ D); [lia|exact P|apply expected_nodup; exact Hwf].
+  - apply (drawn_groups_pairwise _ _ _ _ _ D). lia.
+Qed.
+
+(* distinct objects are never merged, whatever attributes they share *)
+Lemma get_unique_keeps_distinct rloc order members :
+  NoDup (map fid members) -> Permutation (get_unique_protoclusters rloc order members) members.
+Proof.
+  intros H. pose proof (get_unique_perm rloc order members) as P. rewrite (dedupe_fid_id members H) in P. exact P.
+Qed.
+
+Lemma region_groups_pairwise rloc N circ subs cands order members out :
+  build_area_rows_region rloc N circ subs cands order members = Ok out ->
+  forall a, In a out -> a_group a <> 0 -> group_size (a_group a) out = 2.
+Proof.
+  intros H. destruct (region_complete _ _ _ _ _ _ _ _ H) as (fs & g' & _ & D).
+  apply (groups_linked_pairwise _ _ _ _ _ D). lia.
+Qed.
+
+(* ---------- inputs of the non-vacuity examples of the third pass ---------- *)
+(* seed C19-seed5: a linear contig of 12000; two DISTINCT protoclusters (identities 1 and 2) of one product (5) with
+   the same extent 0..12000 and different cores, a third one; three SINGLE candidates and a NEIGHBOURING one
+   holding all three, so every protocluster is reached twice *)
+Definition ex5_whole : loc := [mkPart 0 12000 1].
+Definition ex5_p1 := mkFeat 1 K_Proto [mkPart 0 12000 1] (Some [mkPart 1000 2000 1]) false 5.
+Definition ex5_p2 := mkFeat 2 K_Proto [mkPart 0 12000 1] (Some [mkPart 9000 10000 1]) false 5.
+Definition ex5_p3 := mkFeat 3 K_Proto [mkPart 3000 8000 1] (Some [mkPart 4000 7000 1]) false 9.
+Definition ex5_c1 := mkFeat 0 K_Cand [mkPart 0 12000 1] (Some [mkPart 1000 2000 1]) true 1.
+Definition ex5_c2 := mkFeat 1 K_Cand [mkPart 0 12000 1] (Some [mkPart 9000 10000 1]) true 2.
+Definition ex5_c3 := mkFeat 2 K_Cand [mkPart 3000 8000 1] (Some [mkPart 4000 7000 1]) true 3.
+Definition ex5_c4 := mkFeat 3 K_Cand [mkPart 0 12000 1] (Some [mkPart 1000 10000 1]) false 4.
+Definition ex5_cands := [ex5_c1; ex5_c2; ex5_c3; ex5_c4].
+Definition ex5_members := [ex5_p1; ex5_p2; ex5_p3; ex5_p1; ex5_p2; ex5_p3].
+(* seed C19-seed6: a whole-record region on a ring of 1000 with two origin-crossing protoclusters of the same
+   extent 900..100 (products 3 and 4, cores 920..960 and 980..40) in one candidate cluster *)
+Definition ex6_whole : loc := [mkPart 0 1000 1].
+Definition ex6_p1 := mkFeat 1 K_Proto [mkPart 900 1000 1; mkPart 0 100 1] (Some [mkPart 920 960 1]) false 3.
+Definition ex6_p2 := mkFeat 2 K_Proto [mkPart 900 1000 1; mkPart 0 100 1] (Some [mkPart 980 1000 1; mkPart 0 40 1]) false 4.
+Definition ex6_c1 := mkFeat 0 K_Cand [mkPart 900 1000 1; mkPart 0 100 1] (Some [mkPart 920 1000 1; mkPart 0 40 1]) false 1.
+Definition ex6_s1 := mkFeat 7 K_Sub [mkPart 0 1000 1] None false 1.
